@@ -19,7 +19,8 @@ def main():
                 "concretises each shape twice with leaf values from an adversarial pool (2**63, 2**100, -0.0, 5e-324, inf, '', "
                 "NUL, astral characters, tag-like strings) or a seeded sampler, serialises with to_json + json.dumps, parses with "
                 "json.loads + from_json and compares deeply with exact classes; every object dict must carry its fully "
-                "qualified type tag. Non-trivial = a shape of depth >= 1; distinct by shape.")
+                "qualified type tag. Each value also passes the (de)serialiser that create_engine installs for JSON columns: stored, loaded, the "
+                "loaded copy modified in memory, loaded again. Non-trivial = a shape of depth >= 1; distinct by shape.")
     cfgs = [("JsonSer_gen_val1.cfg", 300), ("JsonSer_gen_val2.cfg", 1500), ("JsonSer_gen_val3.cfg", 1500)]
     cases = []
     for cfg, minimum in cfgs:
